@@ -34,4 +34,7 @@ def sumH [DecidableEq α] (le : α → α → Bool) (zero : α) (add : α → α
 def matmulH [DecidableEq α] (le : α → α → Bool) (zero : α) (add : α → α → α) (n : Nat) (h : Hist α) :
     Hist α := sumH le zero add (List.replicate n h)
 
+/-- multiply every count by `k` (an unreduced copy of the same distribution) -/
+def scaleH {δ : Type} (k : Nat) (h : Hist δ) : Hist δ := h.map fun oc => (oc.1, k * oc.2)
+
 end Dyce
